@@ -24,8 +24,91 @@ MIN_NONTRIVIAL = {"quick": 15, "thorough": 40}
 N = {"quick": 400, "thorough": 10000}
 
 
+N_DIRECT = {"quick": 48, "thorough": 1200}
+DIRECT_PER_SPEC = 40
+
+
 def cases(tier, seed):
-    return [dict(seed=seed, i=i) for i in range(N[tier])]
+    return [dict(seed=seed, i=i) for i in range(N[tier])] + [dict(part="direct", seed=seed, i=300000 + i)
+                                                             for i in range(N_DIRECT[tier])]
+
+
+def run_direct(spec):
+    """The model classes called directly (as the repository's own tests do) with frames whose row labels are not
+    0..n-1: shuffled, offset, duplicated or string labels.  The prediction is a function of the rows, not of labels."""
+    import pandas as pd
+
+    harness.client_mod()
+    from elexmodel.models.GaussianElectionModel import GaussianElectionModel
+    from elexmodel.models.NonparametricElectionModel import NonparametricElectionModel
+
+    out = dict(violations=[], counters={}, sets={}, sigs=[])
+    rng = gen.rng_for(spec["seed"], PROPERTY, spec["i"], salt=5)
+    for t in range(DIRECT_PER_SPEC):
+        n, m = int(rng.integers(5, 80)), int(rng.integers(1, 12))
+        w = np.exp(rng.uniform(np.log(20), np.log(50000), size=n + m)).round() + 1
+        if rng.random() < 0.2:
+            w[:] = 1001.0
+        resid = np.round(rng.normal(0, 0.15, size=n), int(gen.choice(rng, [2, 6, 12])))
+        results = np.round(w[:n] * (1 + resid))
+        rep = pd.DataFrame(dict(postal_code="AA", geographic_unit_fips=[f"u{i}" for i in range(n)], reporting=1,
+                                unit_category="expected", last_election_results_turnout=w[:n], results_turnout=results))
+        rep["residuals_turnout"] = (rep.results_turnout - rep.last_election_results_turnout) / rep.last_election_results_turnout
+        partial = np.where(rng.random(m) < 0.3, np.round(w[n:] * rng.uniform(1.2, 2.5, size=m)), 0.0)
+        non = pd.DataFrame(dict(postal_code="AA", geographic_unit_fips=[f"v{i}" for i in range(m)], reporting=0,
+                                unit_category="expected", last_election_results_turnout=w[n:], results_turnout=partial))
+        label = gen.choice(rng, ["range", "shuffled", "offset", "sorted-by-residual", "string", "duplicated"])
+        if label == "shuffled":
+            rep = rep.sample(frac=1, random_state=int(rng.integers(0, 10**6)))
+            non = non.sample(frac=1, random_state=int(rng.integers(0, 10**6)))
+        elif label == "offset":
+            rep.index = rep.index + 1000
+            non.index = non.index + 5
+        elif label == "sorted-by-residual":
+            rep = rep.sort_values("residuals_turnout", ascending=False)
+        elif label == "string":
+            rep.index = [f"r{i}" for i in range(n)]
+        elif label == "duplicated":
+            rep.index = [0] * n
+            non.index = [0] * m
+        ws = [float(x) for x in rep.last_election_results_turnout]
+        rs = [float(x) for x in rep.residuals_turnout]
+        lo, hi = weighted_median_interval(rs, ws)
+        if lo is None or lo != hi:
+            out["counters"]["skipped_nonunique"] = out["counters"].get("skipped_nonunique", 0) + 1
+            continue
+        est = "nonparametric" if rng.random() < 0.5 else "gaussian"
+        model = (NonparametricElectionModel if est == "nonparametric" else GaussianElectionModel)(
+            dict(features=[], fixed_effects={}))
+        try:
+            preds, _ = model.get_unit_predictions(rep.copy(), non.copy(), "turnout")
+            got = np.asarray(preds, dtype=float)
+        except Exception as e:  # noqa: BLE001
+            out["violations"].append(dict(key=f"C05/direct/{est}/raised/{type(e).__name__}/{label}-labels",
+                                          msg=f"get_unit_predictions raised {type(e).__name__}: {str(e)[:150]} with "
+                                              f"{label} row labels", witness=dict(labels=label, n=n, m=m)))
+            continue
+        wn = non.last_election_results_turnout.to_numpy(dtype=float)
+        pn = non.results_turnout.to_numpy(dtype=float)
+        raw = np.float64(lo) * wn + wn
+        want = np.round(np.maximum(raw, pn))
+        out["counters"]["direct_calls"] = out["counters"].get("direct_calls", 0) + 1
+        out["counters"]["nonreporting_units_checked"] = out["counters"].get("nonreporting_units_checked", 0) + m
+        bad = np.where(got != want)[0]
+        bad = [j for j in bad if not (abs(got[j] - want[j]) <= 1 and abs((raw[j] % 1.0) - 0.5) < 1e-6)]
+        if bad:
+            j = bad[0]
+            out["violations"].append(dict(
+                key=f"C05/direct/{est}/prediction-not-uniform-swing/{label}-labels",
+                msg=f"{label} row labels, n={n}: nonreporting unit #{j} predicted {got[j]} but the weighted median "
+                    f"m={lo} gives {want[j]}", witness=dict(labels=label, n=n, m=float(lo), got=float(got[j]),
+                                                           want=float(want[j]))))
+        out["sigs"].append(["direct", est, label, min(n // 20, 3)])
+    out["nontrivial"] = bool(out["sigs"])
+    out["violations"] = out["violations"][:10]
+    if spec["i"] % 16 == 0:
+        out["sample"] = dict(part="direct", last_labels=label, n_reporting=n, n_nonreporting=m, median=lo)
+    return out
 
 
 def build(spec):
@@ -129,6 +212,8 @@ def checker(el, feed, call, res, client):
 
 
 def run_case(spec, inputs=None):
+    if spec.get("part") == "direct":
+        return run_direct(spec)
     if inputs is not None:
         el, feed, call = gen.dematerialise(inputs)
         status = inputs.get("status", {})
